@@ -267,7 +267,12 @@ Step(e, s, rw, sl, ak, ls) ==
              "disc-" \o e.how \o (IF s.conn = "open" THEN "" ELSE "-while-not-connected"),
              [s EXCEPT !.conn = IF @ = "open" THEN "closed" ELSE @, !.pc = "idle", !.op = "none"], rw, sl)
     [] e.ev = "Reset" ->      \* the device resets the session in the middle of an operation: how the operation ends is open
-         Res(<<>>, "device-resets-the-session", [s EXCEPT !.conn = "reset", !.pc = "idle", !.op = "none"], rw, sl)
+         \* ... for the caller.  A library that starts the operation over on a connection of its own (nothing forbids it) is
+         \* held to the same call: the operation is back at its login step, and every frame must again be the caller's
+         Res(<<>>, "device-resets-the-session",
+             IF s.pc \in {"waitlogin", "waitcmd", "cmd"} /\ s.op # "none"
+             THEN [BeginCall(s, s.op, s.arg, s.cmd, s.b, s.clk0) EXCEPT !.conn = "reset"]
+             ELSE [s EXCEPT !.conn = "reset", !.pc = "idle", !.op = "none"], rw, sl)
     [] e.ev = "Flag" ->
          Res(   Cl(s.conn = "limbo" \/ e.flag = (s.conn \in {"open", "reset"}), "C18:connected-iff-open")
              \* ... and while it is connected the client has not closed its socket behind the caller's back
@@ -321,6 +326,8 @@ Step(e, s, rw, sl, ak, ls) ==
          ELSE IF s.pc = "login" /\ s.arg = "unsupported"
          THEN Res(Cl(e.exc = "NotImplementedError", "X01:unsupported-operation-must-raise-notimplementederror"),
                   "ret-unsupported", OnRet(s), rw, sl)
+         ELSE IF s.pc = "login" /\ s.conn = "reset" /\ e.out # "return"
+         THEN Res(<<>>, "ret-after-reset", OnRet(s), rw, sl)        \* the operation simply failed when the device reset the session
          ELSE IF s.pc = "login"
          THEN Res(Cl(e.out # "return" /\ s.arg # "ok", "C03:call-ended-before-login"), "ret-before-login", OnRet(s), rw, sl)
          ELSE IF e.out = "cancelled" /\ s.pc \in {"waitlogin", "waitcmd"}
